@@ -244,3 +244,15 @@ Proof.
     intros q Hq. destruct (Hs q Hq) as [i [Hl Hz]]. exists i. split; [|exact Hz].
     rewrite Hkeep; [exact Hl|]. unfold all_paths. apply in_flat_map. exists v. split; [eapply nth_error_In; exact Hn|exact Hq].
 Qed.
+
+(* every result of a stage is the result of processing its file in SOME filesystem *)
+Lemma stage_results_pointwise swallow u (P : dfile -> file_result -> Prop) :
+  (forall f fs0, P f (process_file swallow f u fs0 false)) ->
+  forall files fs, let '(rs, _) := run_stage swallow files u fs in
+  forall f r, In (f, r) (combine files rs) -> P f r.
+Proof.
+  intros HP. induction files as [|f rest IH]; intros fs; cbn [run_stage]; [intros ? ? []|].
+  specialize (IH (fs_after (process_file swallow f u fs false) fs)).
+  destruct (run_stage swallow rest u (fs_after (process_file swallow f u fs false) fs)) as [rs fs'].
+  intros g r [Heq|Hin]; [injection Heq as <- <-; apply HP|apply IH; exact Hin].
+Qed.
